@@ -349,6 +349,51 @@ def m_vec_append(c, call, v, o):
     o = deref(o); deref(v).items.extend(o.items); o.items = []; return UNIT
 
 
+@reg('Vec::first', 'Vec::last')
+def m_vec_first_last(c, call, v):
+    xs = deref(v).items
+    if not xs: return NONE()
+    return Some(xs[0] if call.key.endswith('first') else xs[-1])
+@reg('Vec::retain', 'HashSet::retain')
+def m_vec_retain(c, call, v, f):
+    v = deref(v); v.items = [x for x in list(v.items) if c.branch(c.callf(f, [x]))]; return UNIT
+@reg('HashMap::retain')
+def m_hm_retain(c, call, m, f):
+    m = deref(m); m.items = [(k, x) for k, x in list(m.items) if c.branch(c.callf(f, [k, x]))]; return UNIT
+@reg('Vec::split_off')
+def m_vec_split_off(c, call, v, n):
+    v = deref(v); k = conc(n)
+    if k is None: raise Unsupported('split_off(symbolic)')
+    if k > len(v.items): raise PanicExc(c.cur_fn, 'index', 'split_off at > len')
+    tail = v.items[k:]; del v.items[k:]; return VecV(tail)
+@reg('Vec::drain')
+def m_vec_drain(c, call, v, rng=None):
+    v = deref(v); r = deref(rng) if rng is not None else None
+    lo, hi = 0, len(v.items)
+    if isinstance(r, StructV):
+        if 'start' in r.fields: lo = conc(r.fields['start'])
+        if 'end' in r.fields: hi = conc(r.fields['end']) + (1 if r.ty == 'RangeInclusive' else 0)
+        if lo is None or hi is None: raise Unsupported('drain(symbolic range)')
+    out = v.items[lo:hi]; del v.items[lo:hi]; return IterV(out)
+@reg('Vec::reverse', 'slice::reverse')
+def m_vec_reverse(c, call, v):
+    v = deref(v)
+    if isinstance(v, VecV): v.items.reverse(); return UNIT
+    raise Unsupported('reverse on ' + type(v).__name__)
+@reg('Vec::dedup')
+def m_vec_dedup(c, call, v):
+    v = deref(v); out = []
+    for x in v.items:
+        if out and c.branch(eq_term(out[-1], x)): continue
+        out.append(x)
+    v.items = out; return UNIT
+@reg('slice::split_first', 'slice::split_last')
+def m_split_first_last(c, call, v):
+    s = as_slice(v); n = len(seq_of(s))
+    if n == 0: return NONE()
+    return Some(Tup([seq_of(s)[0], s.sub(1)])) if call.key.endswith('first') else Some(Tup([seq_of(s)[-1], s.sub(0, n - 1)]))
+
+
 @reg('Vec::truncate')
 def m_vec_truncate(c, call, v, n):
     v = deref(v); k = conc(n)
@@ -647,6 +692,66 @@ def m_opt_is_none_or(c, call, o, f):
     return c.callf(f, [o.fields[0]])
 
 
+@reg('Option::map_or', 'Result::map_or')
+def m_map_or(c, call, o, dflt, f):
+    o = deref(o)
+    return c.callf(f, [o.fields[0]]) if o.variant in ('Some', 'Ok') else dflt
+@reg('Option::map_or_else')
+def m_opt_map_or_else(c, call, o, g, f):
+    o = deref(o)
+    return c.callf(f, [o.fields[0]]) if o.variant == 'Some' else c.callf(g, [])
+@reg('Result::map_or_else')
+def m_res_map_or_else(c, call, o, g, f):
+    o = deref(o)
+    return c.callf(f, [o.fields[0]]) if o.variant == 'Ok' else c.callf(g, [o.fields[0]])
+@reg('Option::ok_or_else')
+def m_opt_ok_or_else(c, call, o, f):
+    o = deref(o)
+    return Ok(o.fields[0]) if o.variant == 'Some' else Err(c.callf(f, []))
+@reg('Option::or')
+def m_opt_or(c, call, o, other):
+    o = deref(o); return o if o.variant == 'Some' else other
+@reg('Option::or_else')
+def m_opt_or_else(c, call, o, f):
+    o = deref(o); return o if o.variant == 'Some' else c.callf(f, [])
+@reg('Option::and')
+def m_opt_and(c, call, o, other):
+    o = deref(o); return other if o.variant == 'Some' else NONE()
+@reg('Option::xor')
+def m_opt_xor(c, call, a, b):
+    a = deref(a); b = deref(b)
+    if a.variant == 'Some' and b.variant == 'None': return a
+    if a.variant == 'None' and b.variant == 'Some': return b
+    return NONE()
+@reg('Option::zip')
+def m_opt_zip(c, call, a, b):
+    a = deref(a); b = deref(b)
+    return Some(Tup([a.fields[0], b.fields[0]])) if a.variant == 'Some' and b.variant == 'Some' else NONE()
+@reg('Option::flatten')
+def m_opt_flatten(c, call, o):
+    o = deref(o); return deref(o.fields[0]) if o.variant == 'Some' else NONE()
+@reg('Option::insert', 'Option::get_or_insert')
+def m_opt_insert(c, call, o, v):
+    o = deref(o)
+    if call.key.endswith('get_or_insert') and o.variant == 'Some': return o.fields[0]
+    o.variant = 'Some'; o.fields = [v]; return v
+@reg('Option::iter', 'Option::into_iter', 'Result::iter')
+def m_opt_iter(c, call, o):
+    o = deref(o); return IterV(list(o.fields) if o.variant in ('Some', 'Ok') else [])
+@reg('Result::unwrap_or_else')
+def m_res_unwrap_or_else(c, call, o, f):
+    o = deref(o); return o.fields[0] if o.variant == 'Ok' else c.callf(f, [o.fields[0]])
+@reg('Result::err')
+def m_res_err(c, call, o):
+    o = deref(o); return Some(o.fields[0]) if o.variant == 'Err' else NONE()
+@reg('Result::and')
+def m_res_and(c, call, o, other):
+    o = deref(o); return other if o.variant == 'Ok' else o
+@reg('Result::or')
+def m_res_or(c, call, o, other):
+    o = deref(o); return o if o.variant == 'Ok' else other
+
+
 @reg('Option::filter')
 def m_opt_filter(c, call, o, f):
     o = deref(o)
@@ -834,6 +939,152 @@ def m_str_contains(c, call, s, pat):
     return or_all([and_all([bs[i + j] == pb[j] for j in range(len(pb))]) for i in range(len(bs) - len(pb) + 1)])
 
 
+def _pat_bytes(p):
+    p = deref(p)
+    if z3.is_bv(p):
+        k = conc(p)
+        if k is None or k >= 0x80: raise Unsupported('non-ASCII / symbolic char pattern')
+        return [z3.BitVecVal(k, 8)]
+    return list(seq_of(p))
+
+
+@reg('str::ends_with', 'slice::ends_with')
+def m_ends_with(c, call, s, pat):
+    bs = list(seq_of(s)); pb = _pat_bytes(pat)
+    if len(pb) > len(bs): return FALSE
+    return and_all([eq_term(x, y) for x, y in zip(bs[len(bs) - len(pb):], pb)]) if pb else TRUE
+
+
+@reg('str::strip_suffix')
+def m_strip_suffix(c, call, s, pat):
+    sv = deref(s); bs = list(sv.b); pb = _pat_bytes(pat)
+    if len(pb) > len(bs): return NONE()
+    if c.branch(and_all([x == y for x, y in zip(bs[len(bs) - len(pb):], pb)]) if pb else TRUE): return Some(StrV(bs[:len(bs) - len(pb)]))
+    return NONE()
+
+
+@reg('str::find', 'str::rfind')
+def m_str_find(c, call, s, pat):
+    bs = list(seq_of(s)); pb = _pat_bytes(pat)
+    idx = range(len(bs) - len(pb) + 1)
+    for i in (idx if call.key == 'str::find' else reversed(idx)):
+        if c.branch(and_all([bs[i + j] == pb[j] for j in range(len(pb))]) if pb else TRUE): return Some(B64(i))
+    return NONE()
+
+
+def _trim(c, bs, pred, start, end):
+    i, j = 0, len(bs)
+    if start:
+        while i < j and c.branch(pred(bs[i])): i += 1
+    if end:
+        while j > i and c.branch(pred(bs[j - 1])): j -= 1
+    return bs[i:j]
+
+
+def _ws_ascii_only(c, bs):
+    # str::trim* use Unicode White_Space; exact for ASCII input, other input is declined
+    for b in bs:
+        if not c.branch(z3.ULT(b, 0x80)): raise Unsupported('Unicode-aware trim on non-ASCII text')
+
+
+@reg('str::trim', 'str::trim_start', 'str::trim_end')
+def m_str_trim(c, call, s):
+    bs = list(deref(s).b); _ws_ascii_only(c, bs)
+    ws = lambda b: z3.Or(b == 0x20, z3.And(z3.UGE(b, 0x09), z3.ULE(b, 0x0d)))
+    return StrV(_trim(c, bs, ws, not call.key.endswith('_end'), not call.key.endswith('_start')))
+
+
+@reg('str::trim_end_matches', 'str::trim_matches')
+def m_trim_matches(c, call, s, pat):
+    bs = list(deref(s).b); pb = _pat_bytes(pat)
+    if len(pb) != 1: raise Unsupported('trim pattern')
+    return StrV(_trim(c, bs, lambda b: b == pb[0], call.key == 'str::trim_matches', True))
+
+
+@reg('str::split_at')
+def m_str_split_at(c, call, s, ix):
+    bs = list(deref(s).b); k = conc(ix)
+    if k is None: raise Unsupported('split_at(symbolic)')
+    if k > len(bs) or (k < len(bs) and c.branch(z3.And(z3.UGE(bs[k], 0x80), z3.ULT(bs[k], 0xC0)))):
+        raise PanicExc(c.cur_fn, 'index', 'byte index is not a char boundary')
+    return Tup([StrV(bs[:k]), StrV(bs[k:])])
+
+
+@reg('str::bytes')
+def m_str_bytes(c, call, s): return IterV(list(deref(s).b))
+
+
+@reg('str::to_lowercase', 'str::to_uppercase', 'str::to_ascii_lowercase', 'str::to_ascii_uppercase', 'slice::to_ascii_lowercase', 'slice::to_ascii_uppercase')
+def m_str_case(c, call, s):
+    v = deref(s); bs = list(seq_of(v))
+    if 'ascii' not in call.key: _ws_ascii_only(c, bs)
+    if call.key.endswith('lowercase'): out = [z3.If(z3.And(z3.UGE(b, 0x41), z3.ULE(b, 0x5a)), b | 0x20, b) for b in bs]
+    else: out = [z3.If(z3.And(z3.UGE(b, 0x61), z3.ULE(b, 0x7a)), b & 0xdf, b) for b in bs]
+    return StrV(out) if isinstance(v, StrV) else VecV(out)
+
+
+@reg('str::is_char_boundary')
+def m_is_char_boundary(c, call, s, ix):
+    bs = list(deref(s).b); k = conc(ix)
+    if k is None: raise Unsupported('is_char_boundary(symbolic)')
+    if k == 0 or k == len(bs): return TRUE
+    if k > len(bs): return FALSE
+    return z3.Not(z3.And(z3.UGE(bs[k], 0x80), z3.ULT(bs[k], 0xC0)))
+
+
+@reg('String::clear')
+def m_string_clear(c, call, s): deref(s).b = []; return UNIT
+@reg('String::truncate')
+def m_string_truncate(c, call, s, n):
+    k = conc(n)
+    if k is None: raise Unsupported('truncate(symbolic)')
+    v = deref(s); v.b = list(v.b)[:k]; return UNIT
+@reg('String::insert_str')
+def m_string_insert_str(c, call, s, ix, t):
+    k = conc(ix)
+    if k is None: raise Unsupported('insert_str(symbolic)')
+    v = deref(s); b = list(v.b); v.b = b[:k] + list(seq_of(t)) + b[k:]; return UNIT
+
+
+@regp(r'^(u8|char)::is_ascii(_alphabetic|_alphanumeric|_hexdigit|_whitespace|_uppercase|_lowercase|_punctuation|_graphic|_control)?$')
+def m_is_ascii_class(c, call, v):
+    v = deref(v); k = call.key.split('::')[1]
+    rng = lambda lo, hi: z3.And(z3.UGE(v, lo), z3.ULE(v, hi))
+    up, lo_, dg = rng(0x41, 0x5a), rng(0x61, 0x7a), rng(0x30, 0x39)
+    return {'is_ascii': z3.ULT(v, 0x80), 'is_ascii_alphabetic': z3.Or(up, lo_), 'is_ascii_alphanumeric': z3.Or(up, lo_, dg),
+            'is_ascii_hexdigit': z3.Or(dg, rng(0x41, 0x46), rng(0x61, 0x66)), 'is_ascii_whitespace': z3.Or(v == 0x20, v == 0x09, v == 0x0a, v == 0x0c, v == 0x0d),
+            'is_ascii_uppercase': up, 'is_ascii_lowercase': lo_, 'is_ascii_punctuation': z3.Or(rng(0x21, 0x2f), rng(0x3a, 0x40), rng(0x5b, 0x60), rng(0x7b, 0x7e)),
+            'is_ascii_graphic': rng(0x21, 0x7e), 'is_ascii_control': z3.Or(z3.ULT(v, 0x20), v == 0x7f)}[k]
+
+
+@reg('u8::eq_ignore_ascii_case')
+def m_u8_eq_ignore_case(c, call, a, b):
+    low = lambda v: z3.If(z3.And(z3.UGE(v, 0x41), z3.ULE(v, 0x5a)), v | 0x20, v)
+    return low(deref(a)) == low(deref(b))
+
+
+@regp(r'^(u8|u16|u32|u64|usize|i8|i16|i32|i64|isize)::(saturating_add|saturating_sub)$')
+def m_saturating(c, call, a, b):
+    t, op = call.key.split('::'); n = a.size(); signed = t[0] == 'i'
+    wide = (z3.SignExt if signed else z3.ZeroExt)
+    x, y = wide(1, a), wide(1, b)
+    r = x + y if op.endswith('add') else x - y
+    lo = -(1 << (n - 1)) if signed else 0; hi = (1 << (n - 1)) - 1 if signed else (1 << n) - 1
+    lov, hiv = z3.BitVecVal(lo, n + 1), z3.BitVecVal(hi, n + 1)
+    cl = z3.If(r < lov, lov, z3.If(r > hiv, hiv, r)) if signed else z3.If(z3.Extract(n, n, r) == 1, (z3.BitVecVal(0, n + 1) if op.endswith('sub') else hiv), r)
+    return z3.simplify(z3.Extract(n - 1, 0, cl))
+
+
+@regp(r'^(u8|u16|u32|u64|usize|i8|i16|i32|i64|isize)::(to_le_bytes|from_le_bytes|swap_bytes)$')
+def m_le_bytes(c, call, v):
+    op = call.key.split('::')[1]
+    if op == 'from_le_bytes':
+        bs = list(items_of(deref(v))); return z3.simplify(z3.Concat(*reversed(bs))) if len(bs) > 1 else bs[0]
+    n = v.size() // 8
+    le = [z3.simplify(z3.Extract(8 * i + 7, 8 * i, v)) for i in range(n)]
+    return ArrV(le) if op == 'to_le_bytes' else (z3.simplify(z3.Concat(*le)) if n > 1 else v)
+
+
 @reg('str::starts_with')
 def m_str_starts_with(c, call, s, pat):
     bs = seq_of(s); p = deref(pat)
@@ -967,6 +1218,13 @@ def it_next(c, it):
             if k == 'take_while':
                 if c.branch(c.callf(it.f, [x])): return Some(x)
                 return NONE()
+            if k == 'map_while':
+                return c.callf(it.f, [x])
+            if k == 'skip_while':
+                if it.n == 0 and c.branch(c.callf(it.f, [x])): continue
+                it.n = 1; return Some(x)
+            if k == 'inspect':
+                c.callf(it.f, [x]); return Some(x)
             raise Unsupported('lazy iterator ' + k)
     if isinstance(it, Opaque) and it.t == 'Chars':
         bs = it.info
@@ -1037,6 +1295,85 @@ def m_it_take_while(c, call, it, f): return LazyIt('take_while', deref(it), f)
 @reg('Iterator::rev')
 def m_it_rev(c, call, it):
     return IterV(list(reversed(collect_list(c, deref(it)))))
+@reg('Iterator::map_while')
+def m_it_map_while(c, call, it, f): return LazyIt('map_while', deref(it), f)
+@reg('Iterator::skip_while')
+def m_it_skip_while(c, call, it, f): return LazyIt('skip_while', deref(it), f)
+@reg('Iterator::inspect')
+def m_it_inspect(c, call, it, f): return LazyIt('inspect', deref(it), f)
+@reg('Iterator::skip')
+def m_it_skip(c, call, it, n):
+    k = conc(n)
+    if k is None: raise Unsupported('skip(symbolic)')
+    xs = collect_list(c, deref(it)); return IterV(xs[k:])
+@reg('Iterator::take')
+def m_it_take(c, call, it, n):
+    k = conc(n)
+    if k is None: raise Unsupported('take(symbolic)')
+    out = []
+    for _ in range(k):
+        r = it_next(c, deref(it))
+        if r.variant == 'None': break
+        out.append(r.fields[0])
+    return IterV(out)
+@reg('Iterator::step_by')
+def m_it_step_by(c, call, it, n):
+    k = conc(n)
+    if not k: raise Unsupported('step_by(symbolic or 0)')
+    return IterV(collect_list(c, deref(it))[::k])
+@reg('Iterator::chain')
+def m_it_chain(c, call, it, o):
+    return IterV(collect_list(c, deref(it)) + collect_list(c, m_into_iter(c, call, o)))
+@reg('Iterator::flat_map')
+def m_it_flat_map(c, call, it, f):
+    out = []
+    for x in collect_list(c, deref(it)): out += collect_list(c, m_into_iter(c, call, c.callf(f, [x])))
+    return IterV(out)
+@reg('Iterator::flatten')
+def m_it_flatten(c, call, it):
+    out = []
+    for x in collect_list(c, deref(it)): out += collect_list(c, m_into_iter(c, call, x))
+    return IterV(out)
+@reg('Iterator::find_map')
+def m_it_find_map(c, call, it, f):
+    while True:
+        r = it_next(c, deref(it))
+        if r.variant == 'None': return r
+        o = c.callf(f, [r.fields[0]])
+        if o.variant == 'Some': return o
+@reg('Iterator::sum')
+def m_it_sum(c, call, it):
+    xs = collect_list(c, deref(it))
+    if not xs: raise Unsupported('sum of an empty iterator (width unknown)')
+    acc = deref(xs[0])
+    for x in xs[1:]: acc = acc + deref(x)
+    return z3.simplify(acc)
+@reg('Iterator::max', 'Iterator::min')
+def m_it_minmax(c, call, it):
+    xs = [deref(x) for x in collect_list(c, deref(it))]
+    if not xs: return NONE()
+    if not all(z3.is_bv(x) for x in xs): raise Unsupported('min/max over non-scalars')
+    signed = bool(re.search(r'\bi(8|16|32|64|size)\b', call.callee))
+    acc = xs[0]
+    for x in xs[1:]:
+        if call.key.endswith('max'): acc = z3.If((x >= acc) if signed else z3.UGE(x, acc), x, acc)
+        else: acc = z3.If((x < acc) if signed else z3.ULT(x, acc), x, acc)
+    return Some(z3.simplify(acc))
+@reg('Iterator::unzip')
+def m_it_unzip(c, call, it):
+    xs = collect_list(c, deref(it))
+    return Tup([VecV([deref(x)[0] for x in xs]), VecV([deref(x)[1] for x in xs])])
+@reg('Iterator::partition')
+def m_it_partition(c, call, it, f):
+    a, b = [], []
+    for x in collect_list(c, deref(it)): (a if c.branch(c.callf(f, [x])) else b).append(x)
+    return Tup([VecV(a), VecV(b)])
+@reg('Iterator::rposition')
+def m_it_rposition(c, call, it, f):
+    xs = collect_list(c, deref(it))
+    for i in range(len(xs) - 1, -1, -1):
+        if c.branch(c.callf(f, [xs[i]])): return Some(B64(i))
+    return NONE()
 @reg('Iterator::peekable', 'Iterator::by_ref', 'Iterator::fuse')
 def m_it_id(c, call, it): return it
 
